@@ -187,3 +187,27 @@ class TestCancelHookFailureIsolated:
             _consume(stream, 1)
             stream.cancel()
             assert proxy.ping() == 42
+
+
+class TestCancelHttpSuspendedIterator:
+    """A producer iterator that was mid-stream when cancel() ran must not reach the server again."""
+
+    def test_iterating_after_cancel_makes_no_further_produce_calls(self) -> None:
+        """Resuming the suspended iterator after cancel() ends it instead of following the next token."""
+        from vgi_rpc.http import http_connect, make_sync_client
+        from vgi_rpc.rpc import RpcServer
+
+        from .test_rpc import RpcFixtureServiceImpl
+
+        _CancelProbe.reset()
+        client = make_sync_client(RpcServer(RpcFixtureService, RpcFixtureServiceImpl()), token_key=b"test-key")
+        with http_connect(RpcFixtureService, client=client) as proxy:
+            stream = proxy.cancellable_producer()
+            it = iter(stream)
+            next(it)
+            next(it)  # now suspended inside a continuation response that ends with a token
+            stream.cancel()
+            calls_at_cancel = _CancelProbe.produce_calls
+            assert next(it, None) is None
+        assert _CancelProbe.produce_calls == calls_at_cancel
+        assert _CancelProbe.on_cancel_calls == 1
